@@ -1,7 +1,9 @@
 (* C15 -- Version order is total; a version change reschedules exactly its
    owner.  Property theorems only; proofs live in Proofs/. *)
 From DV Require Import Gen.VersionGen Proofs.VersionProofs.
-From Coq Require Import ZArith Bool.
+From DV Require Import Model.Sched Model.Build Gen.DiffGen Proofs.SchedC15.
+From Coq Require Import ZArith Bool List.
+Import ListNotations.
 Open Scope Z_scope.
 
 (* ---- order half: over the definitions generated from dawgie.Version ---- *)
@@ -50,3 +52,56 @@ Print Assumptions C15_trichotomy.
 Example C15_order_example :
   ver_lt (1, 1, 0) (1, 10, 0) = true /\ ver_newer (2, 0, 0) (1, 9, 9) = true.
 Proof. split; reflexivity. Qed.
+
+Open Scope nat_scope.
+(* ---- build half: over the GENERATED _diff (Gen/DiffGen.v) and the scheduler
+   model of build()/organize() (Model/Build.v, Model/Sched.v) ---- *)
+
+(* what the generated _diff computes: the names of `curr` whose current version
+   string is not among the persisted ones (unknown name = none persisted) *)
+Theorem C15_diff_spec : forall curr prev k,
+  In k (diff curr prev) <-> In k (map fst curr) /\ ~ In (dget k curr) (lget k prev).
+Proof. intros. rewrite diff_spec, diff_test_spec. reflexivity. Qed.
+Print Assumptions C15_diff_spec.
+
+(* at every (re)load, for every engine c, every version tables T, any previous
+   state s and any iteration order of python's set (hint): an algorithm is pending
+   exactly when it changed, for exactly every known target (the all-targets marker
+   for analyses); nothing is executing; the queue holds exactly the changed nodes *)
+Theorem C15_build_exact : forall c T hint s,
+  let s' := build_versions c T hint s in
+  (forall y t, In t (todo (getn (ns s') y)) <->
+     In y (changed_of T) /\ y < nnodes c /\ (if asp c y then t = ALL else In t (gtargets c))) /\
+  (forall y, doing (getn (ns s') y) = [] /\ do_ (getn (ns s') y) = []) /\
+  (forall z, In z (que s') <-> In z (changed_of T) /\ z < nnodes c).
+Proof.
+  intros c T hint s s'. unfold s', build_versions.
+  destruct (build_exact c (reorder hint (changed_of T)) s) as (_ & A & B & C).
+  split; [|split; [exact B|]].
+  - intros y t. rewrite A, reorder_In. reflexivity.
+  - intros z. rewrite C, reorder_In. reflexivity.
+Qed.
+Print Assumptions C15_build_exact.
+
+(* an algorithm counts as changed exactly when its own version, or the version of
+   one of its state vectors, or of one of its values, is not among the persisted *)
+Theorem C15_changed_iff : forall T x,
+  In x (changed_of T) <->
+  (In x (map fst (cur_alg T)) /\ ~ In (dget x (cur_alg T)) (lget x (per_alg T))) \/
+  (exists k, In k (map fst (cur_sv T)) /\ ~ In (dget k (cur_sv T)) (lget k (per_sv T)) /\ In x (owner (own_sv T) k)) \/
+  (exists k, In k (map fst (cur_v T)) /\ ~ In (dget k (cur_v T)) (lget k (per_v T)) /\ In x (owner (own_v T) k)).
+Proof. exact changed_spec. Qed.
+Print Assumptions C15_changed_iff.
+
+(* non-vacuity: two task algorithms, the state vector of the second was bumped *)
+Example C15_build_example :
+  let c := {| gnodes := [ {| kids := [1]; anc := []; gfac := Task; lvl := 0; ins := [] |};
+                          {| kids := []; anc := [0]; gfac := Task; lvl := 1; ins := [0] |} ];
+              gfb := []; gtargets := [1; 2] |} in
+  let T := {| cur_alg := [(0, 7); (1, 7)]; cur_sv := [(10, 7); (11, 8)]; cur_v := [(20, 7); (21, 7)];
+              per_alg := [(0, [7]); (1, [6; 7])]; per_sv := [(10, [7]); (11, [7])];
+              per_v := [(20, [7]); (21, [7])];
+              own_sv := [(10, 0); (11, 1)]; own_v := [(20, 0); (21, 1)] |} in
+  let s' := build_versions c T [] (init c) in
+  que s' = [1] /\ todo (getn (ns s') 1) = [1; 2] /\ todo (getn (ns s') 0) = [].
+Proof. vm_compute. repeat split; reflexivity. Qed.
